@@ -510,7 +510,8 @@ example : WellFormedTuples [(.str "a", .int 1, .num 2), (.int 1, .str "b", .num 
 
 /-! ## ★ csv_as_rows -/
 
-/-- **csv_as_rows (delimiter given).** A file made of comment lines followed by at most 100 data rows, read with
+/-- **csv_as_rows (delimiter given).** A file made of comment lines followed by data rows (any number: only the
+    first `n_scan = 100` are scanned), read with
     the delimiter `d` given as `delimiter=` or through its alias `sep=` (any character), whose rows all split into
     two fields or all into three, without blanks around the fields, comment characters inside the rows, blank rows,
     or numeric identifiers that are not integers: `from_csv` returns exactly what `from_edge_list` returns on the
@@ -522,12 +523,12 @@ theorem csv_as_rows_given (num : String → Option Rat) (header body : List Stri
     (hh : ∀ s ∈ header, isCommentLine a.comments s = true)
     (hclean : CleanFile d (lastComment (a.comments.headD '#') header) a.comments header body)
     (hrs : ∀ s ∈ body, rstrip s = s)
-    (hne : body ≠ []) (hn : body.length ≤ 100)
+    (hne : body ≠ [])
     (hshape : (∀ s ∈ body, (splitAt d s).length = 2) ∨ (∀ s ∈ body, (splitAt d s).length = 3))
     (hint : ∀ s ∈ body, ∀ r, (num ((splitAt d s).getD 0 "") = some r → r.den = 1) ∧
                               (num ((splitAt d s).getD 1 "") = some r → r.den = 1)) :
     fromCsv num (header ++ body) a f = fromEdgeList (intOfNum num) (tuplesOf num (body.map (splitAt d))) f :=
-  fromCsv_given _ num header body a f d hgiven hlay hh hclean hrs hne hn hshape hint
+  fromCsv_given _ num header body a f d hgiven hlay hh hclean hrs hne hshape hint
 
 /-- **csv_as_rows (delimiter inferred).** The same when no delimiter is given and one of the candidates
     tab / comma / semicolon / space separates the fields while the others do not occur in the rows. -/
@@ -539,7 +540,7 @@ theorem csv_as_rows_inferred (num : String → Option Rat) (header body : List S
     (hclean : CleanFile (['\t', ',', ';', ' '].getD k ' ') (lastComment (a.comments.headD '#') header) a.comments
       header body)
     (hrs : ∀ s ∈ body, rstrip s = s)
-    (hne : body ≠ []) (hn : body.length ≤ 100)
+    (hne : body ≠ [])
     (hshape : (∀ s ∈ body, (splitAt (['\t', ',', ';', ' '].getD k ' ') s).length = 2) ∨
               (∀ s ∈ body, (splitAt (['\t', ',', ';', ' '].getD k ' ') s).length = 3))
     (hothers : ∀ j, j < 4 → j ≠ k → ∀ row ∈ body, countChar (['\t', ',', ';', ' '].getD j ' ') row = 0)
@@ -548,7 +549,7 @@ theorem csv_as_rows_inferred (num : String → Option Rat) (header body : List S
       (num ((splitAt (['\t', ',', ';', ' '].getD k ' ') s).getD 1 "") = some r → r.den = 1)) :
     fromCsv num (header ++ body) a f
       = fromEdgeList (intOfNum num) (tuplesOf num (body.map (splitAt (['\t', ',', ';', ' '].getD k ' ')))) f :=
-  fromCsv_inferred _ num header body a f k hk hgiven hlay hh hclean hrs hne hn hshape hothers hint
+  fromCsv_inferred _ num header body a f k hk hgiven hlay hh hclean hrs hne hshape hothers hint
 
 /-- a concrete file meeting the hypotheses: one comment line, two rows `a,b,2` / `b,c,0.5` -/
 example : CleanFile ',' (lastComment '#' ["# two edges"]) ['#', '%'] ["# two edges"] ["a,b,2", "b,c,0.5"] ∧
